@@ -2,6 +2,8 @@
    cases:  "T <ticks>"                 -> "TS=<text>,<r> TO=.. DO=.. LD=.. M6=.. M8=.."
            "P <TS|TO|DO|LD|MY> <hex>"  -> "<r> <text>"        (r = ticks | OOB | NOW)
            "L <secs> <nsecs> <dplaces>"-> "<gm text>|<localtime text>"
+           "S <secs>,<nsecs>,<dplaces>,<gm> ..." -> "<text>|<text>|..."  (one rendering per call, in order;
+                                          the model renders each call independently: the function is stateless)
            "G <day>"                   -> "<year> <month> <day> <hour> <min> <sec>"  (get_tm of midnight of that day)
    texts are escaped: bytes outside 33..126 (and backslash, '|') as \xHH; in L a space stays. *)
 let esc ?(space=false) (l : z list) : string =
@@ -77,6 +79,18 @@ let () = run_protocol (fun case impl ->
     let oi = if impl = ms then om else (match split_on '|' impl with
       | [a; b] -> c09_log_ok secs nsecs d (unesc a) && c09_log_ok secs nsecs d (unesc b)
       | _ -> false) in
+    (ms, oi, om)
+  | "S" :: items when items <> [] ->
+    let calls = List.map (fun it -> match split_on ',' it with
+      | [a; b; c; _] -> (z_of_string a, z_of_string b, nat_of_int (int_of_string c))
+      | _ -> failwith "item") items in
+    let txts = List.map (fun (a, b, d) -> log_render a b d) calls in
+    let ms = String.concat "|" (List.map (esc ~space:true) txts) in
+    let om = List.for_all2 (fun (a, b, d) t -> c09_log_ok a b d t) calls txts in
+    let oi = if impl = ms then om else
+      (let parts = split_on '|' impl in
+       List.length parts = List.length calls &&
+       List.for_all2 (fun (a, b, d) t -> c09_log_ok a b d (unesc t)) calls parts) in
     (ms, oi, om)
   | ["G"; day] ->
     let day = z_of_string day in
